@@ -119,22 +119,41 @@ func runCodec(c *Ctx) {
 	c.Stats.Rule = "index states reached by random insert/remove histories (dims 1-4, M in {1,2,3,16}, levels 0-3, 3 metrics, metadata: nil/empty/many keys/255-byte key/65535-byte value/non-UTF8), saved with and without header; each saved stream is model-decoded and loaded back through 5 reader kinds into fresh and used targets; non-trivial = state with removals and a tombstoned link target, an entry hand-over, exotic metadata, or the empty state after use; distinct = distinct history"
 	rng := NewRng(c.Seed)
 	nStates := c.ArgInt("states", c.Pick(120, 2500))
-	// corpus: metadata beyond the format's length fields (D5). The key length is written as a
-	// uint8 and the value length as a uint16 while the full bytes follow, so the stream
-	// desynchronises. Recorded as a known finding; any *other* failure is still reported.
+	// corpus: metadata at and beyond the format's length fields (D5, repaired: the key length is
+	// written as a uint8, the value length and the entry count as a uint16). Metadata that fits must
+	// be accepted and round-trip; metadata that does not must be refused on insert and on an update
+	// whose merged metadata would not fit (the item stays) — in either case the snapshot of the
+	// reached state loads back to the same state.
+	manyKeys := func(n int) index.Metadata {
+		m := index.Metadata{}
+		for i := 0; i < n; i++ {
+			m[fmt.Sprintf("k%d", i)] = ""
+		}
+		return m
+	}
 	for _, w := range []struct {
 		name string
 		md   index.Metadata
+		fits bool
 	}{
-		{"key-300-bytes", index.Metadata{strings.Repeat("k", 300): "v"}},
-		{"value-70000-bytes", index.Metadata{"k": strings.Repeat("v", 70000)}},
+		{"key-255-bytes", index.Metadata{strings.Repeat("k", 255): "v"}, true},
+		{"key-256-bytes", index.Metadata{strings.Repeat("k", 256): "v"}, false},
+		{"key-300-bytes", index.Metadata{strings.Repeat("k", 300): "v"}, false},
+		{"value-65535-bytes", index.Metadata{"k": strings.Repeat("v", 65535)}, true},
+		{"value-65536-bytes", index.Metadata{"k": strings.Repeat("v", 65536)}, false},
+		{"value-70000-bytes", index.Metadata{"k": strings.Repeat("v", 70000)}, false},
+		{"65535-entries", manyKeys(65535), true},
+		{"65536-entries", manyKeys(65536), false},
 	} {
 		c.Begin("corpus-D5-" + w.name)
 		sp, _ := newSpace(0)
 		h := index.NewHnsw(2, sp)
-		h.Insert(rid(1), amath.Vector{1, 2}, w.md, 0)
+		err := h.Insert(rid(1), amath.Vector{1, 2}, w.md, 0)
 		h.Insert(rid(2), amath.Vector{3, 4}, nil, 0)
-		c.OpLocal("insert id 1 with metadata %s; insert id 2; save; load", w.name)
+		c.OpLocal("insert id 1 with metadata %s -> %v; insert id 2; save; load", w.name, err)
+		if w.fits && err != nil {
+			c.Violate("C08", "C08/metadata-refused", fmt.Sprintf("an item with %s fits the snapshot format but was refused: %v", w.name, err), c.History())
+		}
 		var buf bytes.Buffer
 		h.Save(&buf, false)
 		// the Load runs in a child process with an address-space limit: a desynchronised stream can
@@ -142,8 +161,9 @@ func runCodec(c *Ctx) {
 		// "out of memory" fatal error
 		res := childLoad(c, buf.Bytes(), 2, false, codecView(h.VerifDump()))
 		if res != "same" {
-			c.Violate("C08", "C08/metadata-length-truncation", fmt.Sprintf("an item with %s is accepted, but the snapshot of that state cannot be loaded back (%s): length fields truncate", w.name, res), c.History())
+			c.Violate("C08", "C08/metadata-length-truncation", fmt.Sprintf("an item with %s is accepted (insert answered %v), but the snapshot of that state cannot be loaded back (%s): length fields truncate", w.name, err, res), c.History())
 		}
+		c.Nontrivial("metadata-at-format-limits")
 		c.End()
 	}
 	for s := 0; s < nStates; s++ {
